@@ -49,12 +49,23 @@ MANIFEST = {
             'executed symbolically from the source for each argument count 2..7 (2..11 thorough) and proved equal to the emitters the '
             'netlist theorem is about; control flow (fall-backs, _combine, simplify) is a hand model evaluated inside Coq against '
             'the real code on every run - over Qc at a rational s0 for transient/s-domain sources and over the Gaussian rationals at '
-            's = j omega (phasor domain) for ac sources.',
+            's = j omega (phasor domain) for ac sources.  Netlist probes: a measurement on a two-port relation is specified (unit test source on '
+            'one port, the other port open or shorted, existence and uniqueness of the reading); the formulas of NetlistOpsMixin.Aparams/Bparams/'
+            'Zparams are regenerated from the source and proved to return THE A/B/Z representation of every relation that has one '
+            '(probe_X_sound), in particular of a network whose port relation is the B relation of a section (probe_X_section); Gparams/Hparams/'
+            'Yparams are the probe followed by the C08 conversion; for twoport(model=X) the readings stored as the source vector are proved to '
+            'be the source vector of the affine X relation (twoport_src_X_sound: holds for Z; refuted for A, B, G, H, Y on the unchanged tree, '
+            'with machine-checked witnesses twoport_src_X_refuted and concrete networks from the oracle).',
     'note': 'Trusted: Coq kernel/vm_compute; tools/tr_oneport.py, tr_sections.py, tr_twoport.py + statement templates in '
             'checks/c07gen.py; specifications coq/theory/OnePort.v (sem), Sections.v, TwoPort.v, Circuit.v; hand models '
             'props/C07model.v (validated by correspondence); tools/tr_netmake.py (symbolic execution of _net_make); signal transforms '
-            'of source classes are opaque (C09/C14); dc and noise source kinds, the NetlistOpsMixin parameter probes and the physical '
-            'semantics of emitted TWO-port netlists are compared by the exact oracle only (no theorem).',
+            'of source classes are opaque (C09/C14); tools/tr_probes.py (probe formulas; the except ValueError fall-backs of the probes are '
+            'not modelled: they are taken when an analysis has no solution, which the theorems exclude by hypothesis); the conventions of the '
+            'measurement specification in props/C07probe.v (direction of the test current, sign of Isc) are validated per run: the regenerated '
+            'formulas applied to the readings of the text-book B model (meas_of_Bs, proved right in meas_of_Bs_driven_ok / _alive_ok) must '
+            'reproduce what Aparams..Gparams and twoport() return on the emitted netlist; dc and noise source kinds and the physical '
+            'semantics of emitted TWO-port netlists (that the netlist of a section has the section relation at its ports) are compared by '
+            'the exact oracle only (no theorem).',
     'technique': 'Coq proof by induction over trees/lists on a model translated from source + in-Coq correspondence evaluation + exact three-route search oracle',
 }
 
@@ -778,6 +789,8 @@ def run(tier='quick', replay=None):
                        'translators tools/tr_oneport.py (sha256 %s), tools/tr_sections.py (%s), tools/tr_twoport.py; statement templates checks/c07gen.py'
                        % (core.sha256_file(os.path.join(core.VERIF, 'tools', 'tr_oneport.py'))[:12],
                           core.sha256_file(os.path.join(core.VERIF, 'tools', 'tr_sections.py'))[:12]),
+                       'translator tools/tr_probes.py (%s) of NetlistOpsMixin.Aparams..Zparams/twoport; measurement specification props/C07probe.v (port_cond, is_meas)'
+                       % core.sha256_file(os.path.join(core.VERIF, 'tools', 'tr_probes.py'))[:12],
                        'specifications coq/theory/OnePort.v (sem), Sections.v (section relations, affine relations with source vectors), TwoPort.v (rel_A..rel_Z), Circuit.v (component laws)',
                        'hand models props/C07model.v (_combine, simplify, _net_make) and theory/OnePort.v (fall-backs, Ser/Par sums, guard) validated per run by the correspondence evaluation',
                        'opaque: Laplace/phasor transforms of the source classes (xf_*), sympy arithmetic/cancellation']
@@ -1362,7 +1375,9 @@ def run(tier='quick', replay=None):
                                                             'found_by': 'the %s-model equations of the network do not hold with the source value returned by twoport(model=%r)' % (X, X),
                                                             'shape': tp_shape(P)})
                                 break
-                    if probes_ok and ptr is not None and X in ptr.models and tterm_tb:
+                    if probes_ok and ptr is not None and X in ptr.models and ptr.models[X].get('via'):
+                        res.count('twoport_model_via_%smodel_oracle_only' % ptr.models[X]['via'])
+                    elif probes_ok and ptr is not None and X in ptr.models and tterm_tb:
                         for wi in (0, 1):
                             items.append((gi, [], 'qc_eqb (tp_src_%s_%d (meas_of_Bs %s)) %s' % (X, wi + 1, tterm_tb, q(F(d_['src'][wi]))), ci))
                             labels[gi] = ('twoport_model.%s.%s' % (X, SRC_OWN[X][wi]), ci)
@@ -1461,7 +1476,8 @@ def run(tier='quick', replay=None):
                     'two-ports: every section class, chains, Par2, Ser2/Hybrid2/InverseHybrid2 (second argument a shunt so that the port '
                     'condition holds), every section constructor of AMatrix/BMatrix/ZMatrix; source vectors: each of the six two-port model '
                     'classes on random numeric matrices and sources (every source property against the defining affine relation), sections '
-                    'and ladders built from one-ports with sources measured on the emitted netlist (8 open/short quantities); '
+                    'and ladders built from one-ports with sources measured on the emitted netlist (8 open/short quantities), and '
+                    'Circuit(netlist).twoport(1, 0, 3, 2, model=X) of the same netlists against the text-book affine relation; '
                     'non-trivial = the real code returned values; '
                     'distinct = distinct tree shape + values')
 
